@@ -10,6 +10,7 @@ import ConfModel.Lemmas.RawBody
 import ConfModel.Lemmas.RawMerge
 import ConfModel.Lemmas.RawSeq
 import ConfModel.Spec.RawSeq
+import ConfModel.Model.RawRetry
 import ConfModel.Generated.C17Facts
 namespace ConfModel.Props.C17
 open ConfModel.RawBody ConfModel.RawBodySpec
@@ -343,5 +344,67 @@ theorem raw_status_injective (p : Proto) (c d : Nat) (hc1 : 100 ≤ c) (hc2 : c 
 example : (100 : Nat) ≤ 600 ∧ (600 : Nat) ≤ 999 := by decide
 
 end History
+
+/-! ## Every attempt of a raw request -/
+
+section Retry
+open ConfModel.RawRetry
+
+/-- **every_attempt_exact.**  If the substitute request has no other body source than the
+prescribed body (`GetBody` is nil, or yields the prescribed body again), then every request body
+the transport puts on the wire - the first attempt and every re-attempt, however many the peer
+provokes, over HTTP/1.1 and HTTP/2, replayable or not - is the prescribed one. -/
+theorem every_attempt_exact (e : Env) (r : SubReq) (faults : Nat)
+    (h : r.getBody = none ∨ r.getBody = some r.body) :
+    ∀ x ∈ wire e r faults, x = r.body := by
+  have hl : ∀ (b : RawRetry.Bytes) (n : Nat), ∀ x ∈ later b n, x = b := by
+    intro b n
+    induction n with
+    | zero => intro x hx; simp [later] at hx
+    | succ k ih =>
+      intro x hx
+      simp only [later, List.mem_cons] at hx
+      rcases hx with hx | hx
+      · exact hx
+      · exact ih x hx
+  intro x hx
+  simp only [wire, List.mem_cons] at hx
+  rcases hx with hx | hx
+  · exact hx
+  · rcases h with h | h
+    · simp [canReplay, h] at hx
+    · split at hx
+      · rw [h] at hx; exact hl _ _ x hx
+      · simp at hx
+
+example : (⟨[1, 2], some [1, 2], 0⟩ : SubReq).getBody = some (⟨[1, 2], some [1, 2], 0⟩ : SubReq).body := rfl
+
+/-- **raw_request_every_attempt.**  The request `RoundTrip` hands to the transport carries no body
+source but the pipe the raw body is written to: whatever the request the client library built
+offers (body, rewind function), whatever the peer does, exactly one request body reaches the wire
+and it is the prescribed one - a refused attempt is reported, never repeated with other bytes. -/
+theorem raw_request_every_attempt (e : Env) (rawBody : RawRetry.Bytes) (clen : Nat) (o : Orig) (faults : Nat) :
+    wire e (roundTripReq rawBody clen o) faults = [rawBody] ∧
+    (roundTripReq rawBody clen o).getBody = none := by
+  simp [wire, roundTripReq, substitute, canReplay]
+
+/-- the hazard the theorem excludes: a substitute request cloned from the original keeps its
+rewind function, and the re-attempt of a replayable raw request carries the original's body -/
+example : wire ⟨false, true, false⟩ (substitute .clone [82, 65, 87] 0 ⟨[79, 82, 73, 71], true⟩) 1 =
+    [[82, 65, 87], [79, 82, 73, 71]] := by decide
+
+/-- **substitute_request_facts.**  Regenerated from the tree on every run: `RoundTrip` makes the
+request with `http.NewRequestWithContext` (which gives a pipe body no `GetBody`) and assigns
+neither `Body` nor `GetBody` afterwards; the request the real `RoundTrip` hands to a capturing
+transport has `GetBody == nil` and the pipe as `Body`, for every probed verb / body shape /
+original request with and without rewind function - the model's `Ctor.fresh`. -/
+theorem substitute_request_facts :
+    Generated.C17Facts.subReqCtor = "http.NewRequestWithContext" ∧
+    Generated.C17Facts.subReqAssigned.contains "GetBody" = false ∧
+    Generated.C17Facts.subReqAssigned.contains "Body" = false ∧
+    Generated.C17Facts.subReqProbe.length = 12 ∧
+    Generated.C17Facts.subReqProbe.all (fun p => p.2.1 == false && p.2.2 == true) = true := by decide
+
+end Retry
 
 end ConfModel.Props.C17
